@@ -11,7 +11,7 @@ for f in sorted(glob.glob(os.path.join(V, "seeded", "*", "meta.json"))):
     for r in runs:
         for c, x in r["results"].items():
             if x["detected"]:
-                cfgs = sorted({l.split("violation in ")[1].split(":")[0] for l in x["lines"] if "violation in" in l})
+                import re; cfgs = sorted({re.search(r"violation in (.*?): [a-z0-9_]+\.", l).group(1) for l in x["lines"] if re.search(r"violation in (.*?): [a-z0-9_]+\.", l)})
                 det.setdefault(c + ("" if r["tier"] == "quick" else " (thorough)"), set()).update(cfgs)
     caught = "; ".join("%s: %s" % (c, ", ".join("`%s`" % x for x in sorted(v)[:3])) for c, v in sorted(det.items())) or "NOT CAUGHT"
     print("| %s | %s | %s | %s |" % (m["id"], m.get("what", "").replace("|", "/"), m.get("needs", "").replace("|", "/"), caught))
